@@ -46,6 +46,8 @@ structure RecEnv where
   pdu : Option Pdu := none         -- pDUSessionChargingInformation
   svcSpec : Option Bytes := none   -- serviceSpecificationInfo, when not empty
   registration : Bool := false     -- registrationChargingInformation given (message type: initial)
+  emptyList : Bool := false        -- ListOfMultipleUnitUsage is an empty but non-nil slice (a record started by the
+                                   -- size guard of ChargingDataUpdate that no usage was appended to yet)
 deriving Repr, Inhabited
 
 def nils : Nat → List Val
@@ -69,14 +71,20 @@ def usageVals : List RecUsage → Vals
   | [] => .nil
   | u :: r => .cons (usageVal u) (usageVals r)
 
-/-- ListOfMultipleUnitUsage: nil until usage is appended -/
-def usageListVal (us : List RecUsage) : Val :=
+/-- ListOfMultipleUnitUsage: nil until usage is appended; `[]cdrType.MultipleUnitUsage{}` (an empty SEQUENCE OF is
+    written) in a record the size guard has just started -/
+def usageListVal (emptyList : Bool) (us : List RecUsage) : Val :=
   match us with
-  | [] => .nil
+  | [] => if emptyList then .list .nil else .nil
   | _ => .list (usageVals us)
 
 def optBytes : Option Bytes → Val
   | some b => .bytes b
+  | none => .nil
+
+/-- RecordSequenceNumber *int64 -/
+def rsnVal : Option Nat → Val
+  | some n => .int n
   | none => .nil
 
 def optStr : Option Bytes → Val
@@ -115,10 +123,10 @@ def chargingRecordVal (e : RecEnv) (r : Record) : Val :=
     .struct (Vals.ofList [.int 1, .str r.subData]),                   -- 2 SubscriberIdentifier (END_USER_IMSI)
     nfiVal e r,                                                       -- 3 NFunctionConsumerInformation
     .nil,                                                             -- 4 Triggers (TriggersToCdr returns none)
-    usageListVal r.usage,                                             -- 5 ListOfMultipleUnitUsage
+    usageListVal e.emptyList r.usage,                                          -- 5 ListOfMultipleUnitUsage
     .bytes e.openTime,                                                -- 6 RecordOpeningTime
     .int 0,                                                           -- 7 Duration
-    (match r.rsn with | some n => .int n | none => .nil),             -- 8 RecordSequenceNumber
+    rsnVal r.rsn,                                                     -- 8 RecordSequenceNumber
     .int r.cause,                                                     -- 9 CauseForRecClosing
     .nil,                                                             -- 10 Diagnostics
     .int r.lsn,                                                       -- 11 LocalRecordSequenceNumber
